@@ -12,6 +12,10 @@
 5. execution (run_exec): the statement of the planner model (byte-identical to the implementation's on the same case) is
    evaluated by model/SqlEvalAgg.v over generated databases and compared with metric_ref_db (model/LogqlMetricExec.v,
    OCaml extraction); a disagreement is a VIOLATION with (query, context, database, got, expected).
+6. overlapping requests (round 8): a case whose context carries `overlap` is answered the way QueryRangeService answers a
+   request (logql_transpiler_v2.Transpile + chain[0].Process over a statement-catching CHDb) while a second request with the
+   same text and another window runs completely inside its Process call (harness/cmd/logqlsql/overlap.go); the statement
+   caught goes through the same text tie, parse-back, execution and judge as every other case.
 """
 import json
 import os
@@ -677,7 +681,9 @@ def exec_violation(ck, xr, c, k, r, shrink=True):
                 rc, out = xr.run("logqlx_shrunkq", [c])
                 r = parse_exec_out(out) if rc == 0 else r
         db, got, want = shrink_db(ck, xr, c, k, r)
-    ck.violation({"property": "C08", "part": "logql_metric_correct", "kind": "the implementation's statement, executed over the database, answers other series / values than the definition",
+    ov = c["ctx"].get("overlap")
+    ck.violation({"property": "C08", "part": "logql_metric_correct", "kind": "the implementation's statement, executed over the database, answers other series / values than the definition" + (
+                      " - the statement of a request (logql_transpiler_v2.Transpile + chain[0].Process, window [from_ns, to_ns - range] widened by FixPeriodPlanner) during whose Process call a second request with the byte-identical query text and the window ctx.overlap = %s was transpiled and processed completely (harness/cmd/logqlsql/overlap.go); without ctx.overlap the same request is answered alone" % ov if ov else ""),
                   "case": {"query": c["query"], "ctx": c["ctx"], "db": db}, "sql": c["sql"][0][:6000],
                   "got_from_statement": got, "expected_by_definition": want,
                   "failing_input": "the database of this case (series / stored lines as listed; shrunk greedily: first the query - threshold, outer operator, grouping clause, matcher or pipeline stage removed while the answers still differ -, then the database: dropping any one line or series makes the two answers equal), query and context as given",
@@ -754,6 +760,10 @@ def exec_judged(ck, xr, run, is_replay):
                               "ill_formed_utf8": sum(1 for c in run for d in c["dbs"] for x in d["samples"] if x.get("line_hex")),
                               "databases_with_multi_byte_line": sum(1 for c in run for d in c["dbs"] if any(nonascii(x) for x in d["samples"])),
                               "databases": sum(len(c["dbs"]) for c in run)}
+    ovl = [c for c in run if c["ctx"].get("overlap")]
+    ck.extra["exec_overlapping_requests"] = {"cases": len(ovl), "second_request_ran_inside_process": sum(1 for c in ovl if "overlap-unreached" not in (c.get("class") or [])),
+                                             "second_window_other_day": sum(1 for c in ovl if c["ctx"]["overlap"][0] // 86400000000000 != c["ctx"]["from_ns"] // 86400000000000),
+                                             "statements_x_databases_judged": sum(1 for (i, k) in verd if byid[i]["ctx"].get("overlap"))}
     ck.extra["exec_shortcut_cases"] = sum(1 for i in m15 if m15[i])
     ck.extra["exec_shortcut_judged"] = sum(1 for (i, k) in verd if m15.get(i) and not r["unaligned"](i))
     ck.extra["exec_definition_checks"] = sum(1 for v in vdef.values() if v == 0)
@@ -844,7 +854,7 @@ def run(ck):
                             "non-trivial = the real planners produced SQL; distinct by (query, context). post-processors: random batches of window-start rows of 1-3 series "
                             "(fingerprint 0 included, zero and negative values, rows outside [from,to], off-grid timestamps), ranges/steps smaller, equal, larger; non-trivial = FixPeriod case with >= 3 rows. "
                             "execution: metric queries of the sub-grammar with a reference meaning (matchers = / =~, line filters, label filters incl. numeric and and/or, json parameters, drop, unwrap; "
-                            "every range function, vector operator with and without grouping, double groupings (by/without on an unwrapped range function under a grouped vector aggregation), quantile, comparison, topk/bottomk (long ranges, half of them over plain selectors); ranges 5s-1m, steps 1s-2m; half of the windows on whole 15 s slots, half widened to whole ranges as FixPeriodPlanner hands them) x 2 databases "
+                            "every range function, vector operator with and without grouping, double groupings (by/without on an unwrapped range function under a grouped vector aggregation), quantile, comparison, topk/bottomk (long ranges, half of them over plain selectors); ranges 5s-1m, steps 1s-2m; half of the windows on whole 15 s slots, half widened to whole ranges as FixPeriodPlanner hands them; a third of the whole-range windows is asked for through logql_transpiler_v2.Transpile + chain[0].Process while a second request with the same text and a window 1-7 days later / 1-2 days earlier is transpiled and processed completely in the middle of the first one's Process call (class overlap)) x 2 databases "
                             "(2-5 series sharing / not sharing grouped labels, 1-5 lines each on and around window and bucket bounds, other sample types; 8 of the 19 pool lines hold multi-byte UTF-8 sequences, a combining mark or ill-formed bytes); non-trivial = agreeing case with >= 3 stored lines, distinct by (query, context, database). ")
     if ck.replay:
         run_replay(ck)
